@@ -70,7 +70,6 @@ Proof.
   - (* MPlayAcq *)
     destruct (smlock s) eqn:El; [|simpl in H0; destruct (sfinished s); discriminate H0].
     apply Hno. eapply mlock_holder_enabled; eauto. rewrite HM. reflexivity.
-  - (* MPlayAppend *) destruct (sstarted _); discriminate H0.
   - (* MPlayPrune *)
     pose proof (g_todo _ G) as Ht. rewrite HM in Ht. simpl in Ht.
     destruct todo as [|th rest]; [congruence|].
@@ -83,7 +82,6 @@ Proof.
     destruct tid as [|j]; simpl in El; [rewrite HM in El; discriminate El|].
     destruct El as (-> & q' & Hq' & Hts). apply Hno.
     eapply (tsec_player_enabled s t q'); eauto. rewrite HM. reflexivity.
-  - (* MCtlRel *) destruct c; discriminate H0.
   - (* MCloseAcqH *)
     rewrite (g_hlock _ G), HM in H0. simpl in H0. destruct (sfinished s); discriminate H0.
   - (* MCloseLoopAcq *)
